@@ -120,7 +120,7 @@ package caskettls
 //@   loop 1 invariant forall(k, 1, #i + 1, !has(cg, cand(name, k)))
 //@   loop 1 invariant !has(cg, name)
 
-//@ unit setup_sweep props=C11 files=setup.go nilchecks=on nonnil_params=on dispenser_variants=on filter=`.`
+//@ unit setup_sweep props=C11,C15 files=setup.go nilchecks=on nonnil_params=on dispenser_variants=on filter=`.`
 //@ // Safety sweep of this directive's setup code: index, slice, division, nil-map store, nil dereference, explicit panic,
 //@ // and termination of the loops driven by the token cursor. No functional contract; callees in the dispenser through their contracts.
 //@ use casketfile/contracts_verif.go:dispenser_api
@@ -130,6 +130,9 @@ package caskettls
 //@ // config object that exists when the directive runs
 //@ func setupTLS
 //@   requires c != nil && forallT(k, *Config, k != nil ==> (k.Manager != nil && k.Issuer != nil))
+//@   // C15 "managed HTTPS exactly for qualifying sites": a site that brought its own certificates (cert/key arguments or
+//@   // `load`) is manual and STAYS manual however many `tls` lines the block has - the setup only ever sets the flag
+//@   at call fieldstore:Config.Manual before [the_manual_flag_is_only_ever_set] arg1
 
 //@ unit helper_frames frames=on props=C11 nilchecks=on filter=`caskettls\.getPreferredDefaultCiphers$`
 //@ // helpers that other units call through an empty contract ("frame-empty, promises nothing"): here each is verified
@@ -142,7 +145,7 @@ package caskettls
 //@ func normalizedName
 //@   pure
 
-//@ unit default_tls_params frames=on props=C06 nilchecks=on filter=`caskettls\.SetDefaultTLSParams$`
+//@ unit default_tls_params frames=on props=C06,C11 nilchecks=on filter=`caskettls\.SetDefaultTLSParams$`
 //@ // C06 "defaults: min TLS1.2, cipher list, FALLBACK_SCSV first": what a configuration looks like after the defaults were
 //@ // filled in. TLS_FALLBACK_SCSV is 0x5600 = 22016, TLS 1.2 is 0x0303 = 771, TLS 1.3 is 0x0304 = 772 (crypto/tls constants).
 //@ func getPreferredDefaultCiphers
@@ -156,3 +159,10 @@ package caskettls
 //@   ensures [maximum_version_defaults_to_tls13] (old(config.ProtocolMaxVersion) == 0 ==> config.ProtocolMaxVersion == 772) && (old(config.ProtocolMaxVersion) != 0 ==> config.ProtocolMaxVersion == old(config.ProtocolMaxVersion))
 //@   ensures [server_order_preferred] config.PreferServerCipherSuites
 //@   ensures [curves_default_only_when_unset] len(old(config.CurvePreferences)) > 0 ==> config.CurvePreferences == old(config.CurvePreferences)
+
+//@ unit constructors_sweep props=C11 nilchecks=on nonnil_params=on filter=`caskettls\.(newSelfSignedCertificate|RegisterClusterPlugin)$`
+//@ // the provider table is made by its package-level initialiser (assumed state fact, re-established at every exit)
+//@ invariant clusterProviders != nil
+//@ // constructors and helpers that this directive's setup calls but that live outside setup.go: the same safety sweep
+//@ // (index, slice, division, nil-map store, nil dereference, explicit panic) as for the setup code itself
+//@ use @verif/specs/stdlib.spec:stdlib
